@@ -797,6 +797,28 @@ pub fn parse_identifier(yaml: &Yaml) -> crate::Result<Expression> {
     }
 }
 
+// The field as it is written in the key. Tokenising drops the whitespace inside a key and the
+// pieces are joined back with single spaces, which names a different field when the key was
+// written with anything else (`two  words`, a tab, a leading space).
+fn written_field(key: &str, field: String) -> String {
+    let inner = match (key.find('('), key.rfind(')')) {
+        (Some(l), Some(r)) if l < r => {
+            let inner = &key[l + 1..r];
+            match inner.rsplit_once(',') {
+                Some((f, _)) if key.trim_start().starts_with("of(") => f,
+                _ => inner,
+            }
+            .trim()
+        }
+        _ => key,
+    };
+    if inner != field && inner.split_whitespace().collect::<Vec<_>>().join(" ") == field {
+        inner.to_owned()
+    } else {
+        field
+    }
+}
+
 // TODO: Extract common code and try to make this function a little bit more readable
 fn parse_mapping(mapping: &Mapping) -> crate::Result<Expression> {
     let mut expressions = vec![];
@@ -824,7 +846,18 @@ fn parse_mapping(mapping: &Mapping) -> crate::Result<Expression> {
                     tokens.push(Token::Identifier(identifier.join(" ")));
                     identifier.clear();
                 }
-                let expr = parse(&tokens)?;
+                let expr = match parse(&tokens)? {
+                    Expression::Cast(f, m) => Expression::Cast(written_field(s, f), m),
+                    Expression::Identifier(f) => Expression::Identifier(written_field(s, f)),
+                    Expression::Match(m, i) => match *i {
+                        Expression::Identifier(f) => Expression::Match(
+                            m,
+                            Box::new(Expression::Identifier(written_field(s, f))),
+                        ),
+                        i => Expression::Match(m, Box::new(i)),
+                    },
+                    expr => expr,
+                };
                 let (e, s) = match expr {
                     Expression::Cast(f, s) => {
                         misc = Some(s.clone());
